@@ -125,6 +125,12 @@ def make_geometry(name):
     if name in GEOMS:
         V, F = gmesh.build(GEOMS[name])
         return trimesh.Trimesh(V + np.array([0.3, -0.2, 0.1]), F, process=False)
+    if name == "nofaces":
+        # a mesh that has vertices but (no longer) any face, e.g. after update_faces with an all-False mask
+        V, F = gmesh.build(GEOMS["tet"])
+        m = trimesh.Trimesh(V + np.array([0.5, 0.5, 0.5]), F, process=False)
+        m.update_faces(np.zeros(len(F), dtype=bool))
+        return m
     if name == "cloud":
         return trimesh.PointCloud(np.random.RandomState(5).uniform(-1, 1, (7, 3)))
     if name == "path3":
@@ -384,6 +390,22 @@ def b_scene(case, ctx):
                         s.add_geometry(geoms["tet2"], node_name="extra", geom_name="tet2", transform=M)
                         ref.parent["extra"] = ("world", M)
                         ref.geom["extra"] = "tet2"
+                elif step[0] == "readd":
+                    # delete a geometry, read, then add it back on one of its former nodes with the same names and transform
+                    names = sorted(geoms)
+                    if len(names) > 1:
+                        name = names[step[1] % len(names)]
+                        nodes_of = [n for n, g in ref.geom.items() if g == name]
+                        if nodes_of:
+                            geo = geoms[name]
+                            s.delete_geometry(name)
+                            ref.geom = {n: g for n, g in ref.geom.items() if g != name}
+                            _ = s.bounds, s.graph.nodes_geometry
+                            check_quantities(s, ref, {k: v for k, v in geoms.items() if k != name}, "after delete (before re-add)", "C10|stale|after=delete")
+                            node = nodes_of[0]
+                            parent, M = ref.parent[node]
+                            s.add_geometry(geo, node_name=node, geom_name=name, parent_node_name=None if parent == "world" else parent, transform=M)
+                            ref.geom[node] = name
                 elif step[0] == "read":
                     _ = s.bounds, s.triangles, s.area, s.volume
                 check_quantities(s, ref, geoms, f"after {step[0]}", f"C10|stale|after={step[0]}")
@@ -403,7 +425,7 @@ def scene_spec(draw, sim=True):
     n = draw(st.integers(1, 7))
     classes = ["rigid", "rigid", "translation", "rotation"] + (["similarity"] if sim else [])
     nodes = []
-    geom_pool = draw(st.lists(st.sampled_from(["box", "tet", "prism", "ico", "cloud", "path3"]), min_size=1, max_size=3, unique=True))
+    geom_pool = draw(st.lists(st.sampled_from(["box", "tet", "prism", "ico", "cloud", "path3", "nofaces"]), min_size=1, max_size=3, unique=True))
     for i in range(n):
         M = np.array(draw(gm.matrix(classes=classes, tscale=5.0))["M"])
         if abs(np.linalg.det(M[:3, :3]) - 1) > 1e-6:
@@ -433,7 +455,7 @@ def scene_case(draw):
     elif k == "history":
         steps = []
         for _ in range(draw(st.integers(1, 5))):
-            t = draw(st.sampled_from(["edge", "edge", "edit_geometry", "scale_geometry", "delete", "add_geometry", "read"]))
+            t = draw(st.sampled_from(["edge", "edge", "edit_geometry", "scale_geometry", "delete", "add_geometry", "read", "readd", "readd"]))
             if t in ("edge", "add_geometry"):
                 steps.append([t, draw(st.integers(0, 6)), draw(gm.matrix(classes=["rigid", "translation", "similarity"], tscale=5.0))])
             else:
@@ -476,7 +498,9 @@ def fixed_cases():
     H[:3, :3] = gm.householder([1, 1, 0])
     ops += [["apply_transform", {"cls": "rigid", "M": R.tolist()}], ["apply_transform", {"cls": "similarity", "M": S.tolist()}], ["apply_transform", {"cls": "mirror", "M": H.tolist()}]]
     ops += [["history", [["read", 0], ["edge", 0, {"M": T1.tolist()}], ["edit_geometry", 0], ["scale_geometry", 1], ["add_geometry", 0, {"M": S.tolist()}], ["delete", 0]]]]
-    for sp in (spec, spec_rigid):
+    spec_nofaces = {"nodes": [{"parent": None, "M": T1.tolist(), "geom": "nofaces"}] + spec_rigid["nodes"][:4]}
+    ops = ops + [["history", [["read", 0], ["readd", 0], ["readd", 1], ["read", 0], ["readd", 2]]]]
+    for sp in (spec, spec_rigid, spec_nofaces):
         for op in ops:
             for warm in (False, True):
                 c = {"spec": sp, "warm": warm, "op": op}
